@@ -497,6 +497,7 @@ func checkC14(c *Ctx) {
 	if !c14Nested(c) {
 		return
 	}
+	c14Package(c)
 }
 
 func init() {
